@@ -322,6 +322,7 @@ func parseCase(s string) (c *caseT, err error) {
 const tunnelID = "verif-tunnel-01"
 const marker = "SRC->DATA:c04-marker"
 const ping = "served-PING"
+const pong = "back-PONG"
 
 type world struct {
 	ctx    context.Context
@@ -453,6 +454,19 @@ func readAck(buf []byte) (ack string, rest []byte) {
 	return "fail", buf[n:]
 }
 
+// waitEcho: `from` writes, and the bytes arrive at `to` (the reverse copy direction of the bridge is live).
+func waitEcho(from, to *peer) bool {
+	from.cli.Write([]byte(pong))
+	for dl := time.Now().Add(2 * time.Second); time.Now().Before(dl); {
+		if bytes.Contains(to.cli.snapshot(), []byte(pong)) {
+			to.cli.drain()
+			return true
+		}
+		time.Sleep(200 * time.Microsecond)
+	}
+	return false
+}
+
 func (w *world) startNodeB() error {
 	ln, err := net.Listen("tcp", "127.0.0.1:0")
 	if err != nil {
@@ -567,6 +581,9 @@ func runCaseInner(c *caseT) string {
 				}
 				time.Sleep(200 * time.Microsecond)
 			}
+			if !waitEcho(t, src) {
+				return "setup-failed:served-backflow"
+			}
 		}
 		if m, ok := final[setup.id]; ok {
 			if m != *setup {
@@ -676,6 +693,11 @@ func runCaseInner(c *caseT) string {
 			break
 		}
 		time.Sleep(time.Millisecond)
+	}
+	if data && src != nil {
+		// both copy directions of the bridge are running before anything is torn down (a bridge closed while
+		// Bridge.Start is still launching its second copy goroutine dereferences a nil forwarder — not C04's subject)
+		waitEcho(r, src)
 	}
 	if !data && len(rest) > 0 {
 		// anything after the ack that is not a protocol packet counts as traffic
